@@ -93,6 +93,19 @@ class TwoArgs(Exception):
         super().__init__(a, b)
 
 
+class _RetryableMixin:
+    """A marker mix-in (no exception): constructible without arguments, picklable."""
+
+
+class MixedQuota(Exception, _RetryableMixin):
+    """Exception + mix-in whose constructor cannot be replayed from .args (they are empty)."""
+
+    def __init__(self, user: Any, limit: Any) -> None:
+        super().__init__()
+        self.user = user
+        self.limit = limit
+
+
 class CodeError(Exception):
     def __init__(self, code: Any, *, detail: Any = None) -> None:
         super().__init__(f"code {code}")
@@ -179,7 +192,7 @@ POOL: Dict[str, Any] = {
     "Hidden": _HiddenError, "PrivNsConflict": _errors.Conflict, "Throttled": Outer._Throttled,
     "EqErr": EqErr, "EqRaises": EqRaises, "Rebound": Rebound,
     "ShadowConnectionError": _shadow.ConnectionError, "ShadowTimeoutError": _shadow.TimeoutError, "ShadowKeyError": _shadow.KeyError,
-    "DynNoModule": DynNoModule,
+    "DynNoModule": DynNoModule, "MixedQuota": MixedQuota,
 }
 FALSY_POOL = {"Falsy": Falsy, "LenZero": LenZero}
 POOL_ALL = dict(POOL)
@@ -269,7 +282,7 @@ def gen_graph(rng: random.Random, maxn: int = 6, falsy: bool = False, surrogate:
             args = [gen_arg(rng), gen_arg(rng)]
         elif cls == "CodeError":
             args = [{"t": "json", "v": rng.randint(0, 9)}]
-        elif cls == "NoArgInit":
+        elif cls in ("NoArgInit", "MixedQuota"):
             args = []
         elif cls in ("OSError", "FileNotFoundError") and rng.random() < 0.5:
             args = [{"t": "json", "v": 2}, {"t": "json", "v": "No such file"}]
@@ -316,6 +329,8 @@ def build_graph(g: Dict[str, Any]) -> List[BaseException]:
             e: BaseException = cls(nd["args"][0]["v"], detail="d")
         elif nd["cls"] == "NoArgInit":
             e = cls()
+        elif nd["cls"] == "MixedQuota":
+            e = cls("user-7", 3)
         elif nd["cls"] == "SecurityError":
             e = cls(description="sec")
         elif nd["cls"] == "ExceptionGroup" and len(nd["args"]) == 2:
@@ -662,6 +677,15 @@ class _CallableInst:
         TRAP_LOG.append("inst.__call__")
         return 1
 
+    # (code of a planted object that merely *describing* it would run)
+    def __repr__(self) -> str:
+        TRAP_LOG.append("inst.__repr__")
+        return "<inst>"
+
+    def __str__(self) -> str:
+        TRAP_LOG.append("inst.__str__")
+        return "inst"
+
 
 class _ClassLike:
     """Not a class, but dressed like one: issubclass() walks __bases__ of non-type objects instead of raising."""
@@ -712,6 +736,8 @@ def install_trapmod() -> None:
     m.sub = os  # type: ignore[attr-defined]
     m.sp = subprocess  # type: ignore[attr-defined]
     m.classlike = _ClassLike()  # type: ignore[attr-defined]
+    m.table = {"k": m.inst, "l": [m.inst]}  # type: ignore[attr-defined]  # containers holding the instance
+    m.bound = m.inst.__call__  # type: ignore[attr-defined]  # a bound method of it
 
     def spoof(*a: Any, **k: Any) -> str:
         TRAP_LOG.append("spoof")
@@ -728,6 +754,19 @@ def install_trapmod() -> None:
     builtins._verif_builtin_trap = _trap_fn  # type: ignore[attr-defined]
     builtins._VerifBuiltinTrapCls = _TrapCls  # type: ignore[attr-defined]
     sys.modules["trapmod"] = m
+    flip = types.ModuleType("flipmod")
+    _state = {"n": 0}
+
+    def _flip_getattr(name: str) -> Any:
+        # a module whose attribute lookup is not idempotent (PEP 562 hook, lazy loader, another thread re-binding it):
+        # every odd access gives an exception class, every even one a recording non-exception class
+        if name != "Err":
+            raise AttributeError(name)
+        _state["n"] += 1
+        return _ExcOk if _state["n"] % 2 else _TrapCls
+
+    flip.__getattr__ = _flip_getattr  # type: ignore[attr-defined]
+    sys.modules["flipmod"] = flip
     sub = types.ModuleType("trapmod.deep")
     sub.fn = _trap_fn  # type: ignore[attr-defined]
     sub.Err = _ExcOk  # type: ignore[attr-defined]
@@ -762,6 +801,7 @@ CATALOGUE: List[Tuple[Optional[str], str]] = [
     ("taskiq.serialization", "exception_to_python"), ("taskiq.exceptions", "BaseModel"), ("taskiq.result.v2", "prepare_exception"),
     ("taskiq.serialization", "_UnpickleableExceptionWrapper.restore"), ("trapmod", "spoof"), ("os", "_"), ("builtins", "KeyError._"),
     ("builtins", "ValueError."), ("builtins", ".ValueError"), ("builtins", "ValueError..args"),
+    ("trapmod", "table"), ("trapmod", "bound"), ("trapmod", "inst.__call__"), ("flipmod", "Err"), ("flipmod", "Err"),
     ("trapmod", "classlike"), ("trapmod", "Holder.__bases__"), ("sys", "path"), ("sys", "flags"), ("os", "environ.copy"),
     ("sys", "exit"), ("sys", "modules"), ("sys", "getrecursionlimit"), ("shutil", "which"), ("pickle", "loads"),
     ("importlib", "import_module"), ("typing", "Any"), ("json", "loads"), ("threading", "Thread"), ("asyncio", "run"),
@@ -1023,6 +1063,13 @@ def run_c20(spec: Dict[str, Any]) -> "tuple[List[Violation], Dict[str, Any]]":
         if new_mods or bad_imports:
             v.append(Violation("module-imported", f"{entry}: loading ({module!r}, {name!r}) imported {sorted(new_mods) or bad_imports}"))
         # (iii) outcome
+        if module == "flipmod":
+            # a module whose attribute lookup is not idempotent: what the name "is" depends on when it is asked, so only
+            # the invariants that do not depend on it are judged (no trap runs, nothing imported, the result is an
+            # exception or the load is refused)
+            if outcome == "loaded" and not isinstance(result, BaseException):
+                v.append(Violation("loaded-non-exception", f"{entry}: result is {type(result).__name__}"))
+            continue
         if entry.startswith("wrapper"):
             if outcome != "loaded" or not isinstance(result, BaseException):
                 v.append(Violation("wrapper-not-restored", f"{entry}: wrapper for ({module!r}, {name!r}) gave {outcome} / {_safe(result)}"))
